@@ -28,6 +28,7 @@
 using celma::common::FixedString;
 static constexpr size_t S2 = 7;   // capacity of the "FixedString with another capacity" arguments
 static constexpr long long kThrown = -2;
+static constexpr long long kNotCalled = -3;   // self pointer source whose precondition does not hold for the real object
 
 // ---- size_t <-> logged integer (all logged integers stay below 2^31; npos = -1) ------------------
 static size_t dec(long long v) {
@@ -128,6 +129,7 @@ template <size_t L> struct Session : ISession {
    FS* s;          // exactly sized heap block
    Arena* ar;      // second object between guard bytes
    FS* o;
+   bool notCalled = false;
 
    Session() {
       s = new FS();
@@ -212,6 +214,23 @@ template <size_t L> struct Session : ISession {
          auto f1 = mit(*s, p2); auto l1 = mit(*s, addsat(p2, c2));
          auto c1 = cit(p2); auto cl1 = cit(addsat(p2, c2));
          ok = tryCall(f, f1, l1) || tryCall(f, c1, cl1);
+      } else if (k == "self" || k == "self_pos_cnt" || k == "self_pos") {
+         // self-aliasing: the object itself is the FixedString argument; src = what it held just before the call
+         src = read(*s);
+         const FS& me = *s;
+         ok = (k == "self") ? tryCall(f, me) : (k == "self_pos_cnt") ? tryCall(f, me, p2, c2) : tryCall(f, me, p2);
+      } else if (k == "selfptr" || k == "selfptr_cnt") {
+         // self-aliasing: c_str() + p2 as C string (p2 <= length(): a character or the terminating zero) resp.
+         // (c_str() + p2, c2) with c2 characters of the content; src = the C string found there before the call.
+         // A pointer behind the terminating zero / a count beyond the content would make the caller itself read
+         // stale bytes: such a call is not made (logged with ri = kNotCalled; it is outside the documented domain).
+         const size_t len = s->length();
+         if (len > L || p2 > len || (k == "selfptr_cnt" && c2 > len - p2)) { src.clear(); notCalled = true; ok = true; }
+         else {
+            const char* p = s->c_str() + p2;
+            src.assign(p, strnlen(p, L + 1 - p2));
+            ok = (k == "selfptr") ? tryCall(f, p) : tryCall(f, p, c2);
+         }
       } else if (k == "strit") {
          std::string t(a.src);
          const size_t b = std::min(p2, t.size()), e = std::min(addsat(p2, c2), t.size());
@@ -227,6 +246,7 @@ template <size_t L> struct Session : ISession {
       const char ch = static_cast<char>(a.ch);
       const std::string &op = a.op, &tk = a.tk, &sk = a.sk;
       const FS& cs = *s;
+      notCalled = false;
       {
          std::string cur = read(*s), txt = "[";
          for (size_t i = 0; i < a.src.size() && i < 40; ++i) { if (i) txt += ','; txt += std::to_string(static_cast<unsigned char>(a.src[i])); }
@@ -307,6 +327,9 @@ template <size_t L> struct Session : ISession {
             const bool pos = (tk == "pos");
             if (!pos && tk != "nopos") unsupported(a);
 #define FINDCALL(M) do { if (pos) { if (sk == "cstr_cnt") { CStr c(a.src); r = cs.M(static_cast<const char*>(c.p), p1, dec(a.c2)); } \
+                                     else if (sk == "selfptr_cnt") { Args b = a; b.sk = "selfptr"; const size_t n = dec(a.c2); \
+                                        if (n > s->length() || dec(a.p2) > s->length() - n) { src.clear(); notCalled = true; } \
+                                        else withSrc(b, src, CALL(r = cs.M(x..., p1, n))); } \
                                      else withSrc(a, src, CALL(r = cs.M(x..., p1))); } \
                          else withSrc(a, src, CALL(r = cs.M(x...))); } while (0)
             if (op == "find") FINDCALL(find);
@@ -387,6 +410,7 @@ template <size_t L> struct Session : ISession {
       } catch (const std::exception&) {
          ri = kThrown; rs.clear();
       }
+      if (notCalled) { ri = kNotCalled; rs.clear(); }
       g_pending[0] = '\0';
       vj::Line ln;
       ln.str("e", "Op").str("op", op).str("tk", tk).str("sk", sk).num("p1", a.p1).num("c1", a.c1).bytes("src", src)
@@ -471,7 +495,7 @@ static std::vector<Combo> combos() {
    add("append", {"pe"}, {"cstr", "str", "fs", "fs2", "ch"});
    add("sprintf", {"fmt"}, {"str"});
    add("replace", {"pos_cnt"}, {"cstr", "str", "fs", "fs2", "str_pos_cnt", "str_pos", "fs_pos_cnt", "fs_pos", "fs2_pos_cnt", "fs2_pos", "cnt_ch", "cstr_cnt"});
-   add("replace", {"it_it"}, {"fsit", "strit", "cstr_cnt", "cstr", "cnt_ch", "ilist"});   // not "selfit": aliasing undocumented
+   add("replace", {"it_it"}, {"fsit", "strit", "cstr_cnt", "cstr", "cnt_ch", "ilist"});
    add("swap", {"other"}, {"fs"});
    add("swap", {"self"}, {"none"});
    add("set", {"at", "idx", "it", "rit", "front", "back"}, {"ch"});
@@ -492,6 +516,22 @@ static std::vector<Combo> combos() {
    add("iter", {"fwd", "fwd_post", "rev", "rev_post", "dist", "rdist", "deref", "rderef", "back_from", "rback_from"}, {"mut", "const", "c"});
    add("iter", {"diff", "cmp"}, {"const"});
    add("iter", {"index", "rindex", "minus_eq"}, {"mut"});
+   // self-aliasing sources: the object itself, c_str() + k, iterators of the object (appended at the end: the
+   // first 12 combinations stay the assign family)
+   add("assign", {"assign", "op_eq"}, {"self", "selfptr"});
+   add("insert", {"idx"}, {"self", "self_pos_cnt", "self_pos", "selfptr", "selfptr_cnt"});
+   add("append", {"app"}, {"self", "self_pos_cnt", "self_pos", "selfptr", "selfptr_cnt"});
+   add("append", {"pe"}, {"self", "selfptr"});
+   add("replace", {"pos_cnt"}, {"self", "self_pos_cnt", "self_pos", "selfptr", "selfptr_cnt"});
+   add("replace", {"it_it"}, {"selfit", "selfptr", "selfptr_cnt"});
+   add("compare", {"whole"}, {"self", "selfptr"});
+   add("compare", {"pos_cnt"}, {"self", "selfptr", "self_pos_cnt", "selfptr_cnt"});
+   for (const char* f : {"find", "rfind", "find_first_of", "find_first_not_of", "find_last_of", "find_last_not_of"}) {
+      add(f, {"pos"}, {"self", "selfptr", "selfptr_cnt"});
+      add(f, {"nopos"}, {"self", "selfptr"});
+   }
+   for (const char* f : {"starts_with", "ends_with", "contains"}) add(f, {"none"}, {"self", "selfptr"});
+   add("rel", {"eq", "ne"}, {"self"});
    return v;
 }
 
@@ -557,7 +597,15 @@ struct Gen {
       if (op == "assign" && rng.chance(1, 8)) maxsrc = 2 * L + 7;
       if (sk == "fs2" || sk == "fs2_pos_cnt" || sk == "fs2_pos") maxsrc = S2 + 2;
       if (sk == "ilist") maxsrc = 7;
-      if (needle && rng.chance(1, 2) && len > 0) {            // something that occurs in the current content
+      const bool search = isFind || op == "contains" || op == "starts_with" || op == "ends_with";
+      if (search && len >= 2 && rng.chance(1, 5)) {
+         // a needle (about) as long as the content that is not the content: a rotation of it.  Only index 0 may be
+         // compared at all; every later index whose character equals the needle's first one tempts a search loop with a
+         // wrong bound to compare behind the content / the object
+         const size_t b = 1 + rng.below(len - 1);
+         a.src = cur.substr(b) + cur.substr(0, b);
+         if (rng.chance(1, 3)) a.src.resize(len - rng.below(std::min<size_t>(len - 1, 3) + 1));
+      } else if (needle && rng.chance(1, 2) && len > 0) {     // something that occurs in the current content
          const size_t b = rng.below(len), n = 1 + rng.below(std::min<size_t>(len - b, 4));
          a.src = cur.substr(b, n);
          if (op == "compare" || op == "rel") a.src = rng.chance(1, 2) ? cur : cur.substr(0, rng.below(len + 1));
@@ -567,10 +615,22 @@ struct Gen {
       // C-string source kinds stay NUL-free in the documented domain (A.3); all other kinds may carry NUL characters
       if (!wild && (sk == "cstr" || sk == "cstr_cnt")) for (auto& ch : a.src) if (ch == 0) ch = 'a';
       a.ch = (needle && len > 0 && rng.chance(1, 2)) ? static_cast<unsigned char>(cur[rng.below(len)]) : chr();
-      size_t slen = (sk == "selfit") ? len : a.src.size();
+      const bool selfKind = (sk == "self" || sk == "self_pos_cnt" || sk == "self_pos" || sk == "selfptr" || sk == "selfptr_cnt");
+      if (selfKind) a.src.clear();                            // the driver logs what the object held before the call
+      size_t slen = (sk == "selfit" || selfKind) ? len : a.src.size();
       if (sk.compare(0, 3, "fs2") == 0) slen = std::min(slen, S2);            // the other FixedString cuts its source off
       else if (sk.compare(0, 2, "fs") == 0) slen = std::min(slen, L);
-      if (sk == "cstr_cnt") a.c2 = static_cast<long long>(rng.below(strlen(a.src.c_str()) + 1));   // never beyond the caller's block
+      if (sk == "selfptr" || sk == "selfptr_cnt") {           // c_str() + k, k <= length (never behind the terminating zero)
+         size_t k = rng.chance(1, 4) ? 0 : rng.below(len + 1);
+         // huge capacities: a needle of half the content makes the declarative Find / Contains of the specification
+         // quadratic on uniform contents (70 000 x 'a'); sub-string searches there use a short tail as needle
+         if (L > 4096 && (op == "find" || op == "rfind" || op == "contains") && len > 40) k = len - rng.below(41);
+         a.p2 = static_cast<long long>(k); a.c2 = -1;
+         // the count stays inside the content; in the documented domain also inside the C string found at k
+         const size_t avail = wild ? len - k : strnlen(cur.c_str() + k, len - k);
+         if (sk == "selfptr_cnt") a.c2 = static_cast<long long>(rng.chance(1, 3) ? avail : rng.below(avail + 1));
+      }
+      else if (sk == "cstr_cnt") a.c2 = static_cast<long long>(rng.below(strlen(a.src.c_str()) + 1));   // never beyond the caller's block
       else if (sk == "cnt_ch") {
          a.c2 = rng.chance(1, 8) ? static_cast<long long>(L + 1 + rng.below(70)) : static_cast<long long>(rng.below(std::min<size_t>(L, 40) + 3));
          if (wild && rng.chance(1, 8)) a.c2 = rng.chance(1, 2) ? big() : static_cast<long long>(70000 + rng.below(100));
@@ -579,7 +639,7 @@ struct Gen {
          a.c2 = static_cast<long long>(rng.below(slen - static_cast<size_t>(a.p2) + 1));
       } else if (sk.size() > 8 && sk.compare(sk.size() - 8, 8, "_pos_cnt") == 0) { a.p2 = pos(slen, L); a.c2 = cnt(slen, L); }
       else if (sk.size() > 4 && sk.compare(sk.size() - 4, 4, "_pos") == 0) { a.p2 = pos(slen, L); a.c2 = -1; }
-      else if (sk == "cstr" || sk == "str" || sk == "fs" || sk == "fs2" || sk == "ilist" || sk == "fs_move") { a.p2 = 0; a.c2 = -1; }
+      else if (sk == "cstr" || sk == "str" || sk == "fs" || sk == "fs2" || sk == "ilist" || sk == "fs_move" || sk == "self") { a.p2 = 0; a.c2 = -1; }
       // ---- target
       if (op == "insert" || op == "replace" || op == "substr" || (op == "compare" && tk == "pos_cnt")) a.p1 = pos(len, L);
       if (op == "erase") { a.p1 = (tk == "noargs") ? 0 : pos(len, L); a.c1 = (tk == "idx_cnt" || tk == "it_it") ? cnt(len, L) : (tk == "it" ? 1 : -1); if (tk == "it_it" && a.c1 < 0) a.c1 = static_cast<long long>(len); }
